@@ -59,7 +59,7 @@ func runC17(r *core.Run) {
 	mc := r.MustHold(core.TLCOpts{Module: "RelMC", Cfg: "RelMC_analytic.cfg", Workers: 8})
 	r.Coverage["states"] = mc.Distinct
 	r.Coverage["transitions"] = mc.Generated
-	ncase := 160
+	ncase := 260
 	if r.Thorough {
 		ncase = 2500
 	}
@@ -138,7 +138,7 @@ func runC17(r *core.Run) {
 		case "lag", "lead":
 			arg = 1 + rng.Intn(3)
 			call = fmt.Sprintf("%s(v, %d)", strings.ToUpper(fn), arg)
-			if rng.Intn(3) == 0 {
+			if rng.Intn(2) == 0 {
 				// IGNORE NULLS: "rows whose value is null are skipped"; generated with offset 1 only, where the
 				// readings of that sentence agree (the nearest non-null value in that direction)
 				ign, arg = true, 1
